@@ -53,8 +53,7 @@ class Check:
         env = dict(os.environ, **GOENV)
         hdir = os.path.join(VERIF, "harness")
         gosum = os.path.join(hdir, "go.sum")
-        if not os.path.exists(gosum):
-            shutil.copy(os.path.join(REPO, "go.sum"), gosum)
+        shutil.copy(os.path.join(REPO, "go.sum"), gosum)   # always the repository's own sums
         outbin = os.path.join(self.scratch, name)
         cmd = ["go", "build", "-tags", "verif", "-o", outbin]
         if REPO != "/repo":
@@ -308,5 +307,11 @@ def run(main):
         rc = main()
     except Inconclusive as e:
         print("INCONCLUSIVE: %s" % e)
+        # leave nothing behind: scratch directories of this process
+        rundir = os.path.join(VERIF, ".run")
+        if os.path.isdir(rundir):
+            for d in os.listdir(rundir):
+                if d.endswith("-%d" % os.getpid()):
+                    shutil.rmtree(os.path.join(rundir, d), ignore_errors=True)
         sys.exit(2)
     sys.exit(rc)
